@@ -3,6 +3,7 @@ import itertools
 import json
 
 from framework import Suite
+from corr import c19_poll
 
 
 def fmt(rs):
@@ -55,12 +56,17 @@ class C19(Suite):
             rng.shuffle(rs)
             yield {"op": "merge", "ranges": rs, "reach": rng.choice([0, 1, 2, 5, 50, None]),
                    "limit": rng.choice([None, None, 0, 1, 7, 123, 125, 2000])}
+        # the polling loop built on merge: the real poller thread, one turn at a time, against a scripted device
+        for k in range(300 if tier == "quick" else 6000):
+            yield c19_poll.gen(rng, big=(k % 10 == 0))
         for _ in range(nrand // 4):
             a = rng.choice(anchors) + rng.randint(0, 12)
             yield {"op": "shatter", "a": a, "c": rng.choice([0, 1, 2, 122, 123, 124, 1967, 1968, 1969, 5000]),
                    "limit": rng.choice([None, 0, 1, 2, 7, 123, 5000])}
 
     def model_line(self, c):
+        if c["op"] == "poll":
+            return f"poll {c['reach']} {';'.join(c['ops'])}"
         if c["op"] == "merge":
             lim = "-" if c["limit"] is None else str(c["limit"])
             reach = 0 if c["reach"] is None else c["reach"]
@@ -70,6 +76,8 @@ class C19(Suite):
 
     def impl(self, c):
         from cpppo.remote.plc_modbus import merge, shatter
+        if c["op"] == "poll":
+            return c19_poll.run_case(c)
         if c["op"] == "merge":
             try:
                 return fmt(merge([tuple(r) for r in c["ranges"]], reach=c["reach"], limit=c["limit"]))
@@ -84,6 +92,8 @@ class C19(Suite):
     def oracle(self, c, out):
         if out.startswith("harness-exception"):
             return out
+        if c["op"] == "poll":
+            return c19_poll.oracle(c, out)
         if c["op"] == "shatter":
             pieces = self.parse(out)
             pos = c["a"]
@@ -139,6 +149,13 @@ class C19(Suite):
         return None
 
     def nontrivial(self, c, out):
+        if c["op"] == "poll":
+            # a turn that merged at least two known addresses into one request
+            for step in out.split(";"):
+                if step.startswith("data=") and "req=" in step:
+                    if any(int(q.split(".")[2]) >= 2 for q in step.split("req=")[1].split(",") if q != "-"):
+                        return json.dumps(c, sort_keys=True)
+            return None
         if c["op"] != "merge" or len(c["ranges"]) < 2:
             return None
         rs = sorted(tuple(r) for r in c["ranges"])
@@ -149,6 +166,9 @@ class C19(Suite):
         return None
 
     def classify(self, c, out):
+        if c["op"] == "poll":
+            return "poll:" + ("fail" if "fail=-" not in out.replace("fail=-|", "", 0) and "|fail=" in out and any(
+                "fail=-" not in s for s in out.split(";") if s.startswith("data=")) else "ok")
         if c["op"] == "shatter":
             return "shatter"
         rs = sorted(tuple(r) for r in c["ranges"])
@@ -167,6 +187,11 @@ class C19(Suite):
         return "merge:" + ("+".join(sorted(kinds)) or "single")
 
     def shrink(self, c):
+        if c["op"] == "poll":
+            ops = c["ops"]
+            for i in range(len(ops)):
+                yield {**c, "ops": ops[:i] + ops[i + 1:]}
+            return
         if c["op"] != "merge":
             return
         rs = c["ranges"]
